@@ -363,8 +363,11 @@ def tag_of(c, r=None):
         # file under the others) - as opposed to the immediate SQLITE_BUSY of a lock upgrade
         calls = [x for rs in r["results"] if rs for x in rs]
         fails = [x for x in calls if x[1] != "ok"]
-        slow = [x for x in calls if x[3] >= 0.9 * BUSY_TIMEOUT]
-        if fails and slow and all(x[3] >= 0.9 * BUSY_TIMEOUT or "locked" not in x[2] for x in fails):
+        thr = 0.9 * max(BUSY_TIMEOUT, 5.0)
+        cascade = ("disk I/O error", "readonly database", "FileNotFoundError", "unable to open database")
+        slow = [x for x in calls if x[3] >= thr]
+        if fails and slow and all((x[3] >= thr and "locked" in x[2]) or any(k in x[2] for k in cascade)
+                                  for x in fails):
             return TIMEOUT_TAG
     return "%s-%s" % (c["mode"], c["kind"])
 
